@@ -17,9 +17,11 @@
                                           even, unbounded exponent, Flocq FLX 3), used for refutation witnesses that
                                           can be evaluated by hand: it satisfies mono_rnd, idem_rnd and the standard
                                           model with eps = 2^-3, eta = 0.
-   rnd3_near, rnd64_near                : evaluation of rnd3 / rnd64 at a concrete real that is not a tie. *)
+   rnd3_near, rnd64_near, rnd64_tie     : evaluation of rnd3 / rnd64 at a concrete real that is not a tie / is a tie
+   rnd64_dyadic, rnd64_sub_nz           : m 2^e (|m| < 2^53, e >= -1074) is a binary64 number; the rounded difference of
+                                          two different binary64 numbers is not 0 (gradual underflow; Flocq round_plus_neq_0). *)
 From Coq Require Import Reals ZArith Lra Lia.
-From Flocq Require Import Core Relative.
+From Flocq Require Import Core Relative Plus_error.
 From LibaV Require Import Common.NumOps Common.ROps Common.RoundOps Common.RoundFlocq.
 Local Open Scope R_scope.
 
@@ -153,4 +155,53 @@ Proof.
   replace (x * / bpow radix2 e - IZR m) with ((x - IZR m * bpow radix2 e) * / bpow radix2 e) by (field; lra).
   rewrite Rabs_mult, (Rabs_pos_eq (/ bpow radix2 e)) by (left; apply Rinv_0_lt_compat; exact Pe).
   apply (Rmult_lt_reg_r (bpow radix2 e)); [exact Pe|]. rewrite Rmult_assoc, Rinv_l by lra. lra.
+Qed.
+
+(* ... at an exact tie: x = (n + 1/2) 2^e in that binade goes to the even neighbour *)
+Lemma ZnearestE_half (n : Z) : ZnearestE (IZR n + / 2) = if Z.even n then n else (n + 1)%Z.
+Proof.
+  unfold Znearest.
+  assert (F : Zfloor (IZR n + / 2) = n) by (apply Zfloor_imp; rewrite plus_IZR; lra).
+  assert (C : Zceil (IZR n + / 2) = (n + 1)%Z) by (apply Zceil_imp; replace (n + 1 - 1)%Z with n by ring; rewrite plus_IZR; lra).
+  rewrite F, C. replace (IZR n + / 2 - IZR n) with (/ 2) by ring.
+  rewrite Rcompare_Eq by reflexivity. destruct (Z.even n); reflexivity.
+Qed.
+
+Lemma rnd64_tie (n e : Z) (x : R) : (-1074 <= e)%Z ->
+  bpow radix2 (e + 52) <= x < bpow radix2 (e + 53) ->
+  x = (IZR n + / 2) * bpow radix2 e ->
+  rnd64 x = IZR (if Z.even n then n else (n + 1)%Z) * bpow radix2 e.
+Proof.
+  intros He Hx Hn. unfold rnd64, round, F2R. cbn [Fnum Fexp].
+  assert (P : 0 < bpow radix2 (e + 52)) by apply bpow_gt_0.
+  assert (C : cexp radix2 fexp64 x = e).
+  { unfold cexp, fexp64, FLT_exp. rewrite (mag_unique radix2 x (e + 53)); [lia|].
+    rewrite Rabs_pos_eq by lra. replace (e + 53 - 1)%Z with (e + 52)%Z by ring. exact Hx. }
+  rewrite C. f_equal. f_equal. rewrite <- ZnearestE_half. f_equal.
+  unfold scaled_mantissa. rewrite C, bpow_opp, Hn.
+  pose proof (bpow_gt_0 radix2 e) as Pe. field. lra.
+Qed.
+
+(* numbers of the binary64 format *)
+Lemma rnd64_dyadic (m e : Z) : (Z.abs m < 2 ^ 53)%Z -> (-1074 <= e)%Z ->
+  rnd64 (IZR m * bpow radix2 e) = IZR m * bpow radix2 e.
+Proof.
+  intros Hm He. unfold rnd64. apply round_generic; [typeclasses eauto|].
+  unfold fexp64. apply generic_format_FLT. exists (Float radix2 m e); [reflexivity| |exact He].
+  cbn [Fnum]. change (radix2 ^ 53)%Z with (2 ^ 53)%Z. exact Hm.
+Qed.
+
+Lemma rnd64_fix_format x : rnd64 x = x -> generic_format radix2 fexp64 x.
+Proof. intros H. rewrite <- H. unfold rnd64. apply generic_format_round; typeclasses eauto. Qed.
+
+(* gradual underflow: the rounded difference of two different binary64 numbers is not zero *)
+Lemma rnd64_sub_nz a b : rnd64 a = a -> rnd64 b = b -> a <> b -> rnd64 (b - a) <> 0.
+Proof.
+  intros Fa Fb Hab. unfold rnd64. unfold Rminus.
+  assert (NF : Exp_not_FTZ fexp64).
+  { apply monotone_exp_not_FTZ; [typeclasses eauto|]. unfold fexp64. apply FLT_exp_monotone. }
+  apply (@round_plus_neq_0 radix2 fexp64 _ NF ZnearestE _ b (- a)).
+  - apply rnd64_fix_format; exact Fb.
+  - apply generic_format_opp. apply rnd64_fix_format; exact Fa.
+  - lra.
 Qed.
